@@ -1,6 +1,7 @@
 package roverif
 
 import (
+	"context"
 	"errors"
 	"fmt"
 	"sort"
@@ -434,6 +435,12 @@ func runC10(e *Env) {
 		r := e.NewRec(fmt.Sprintf("s%d", id))
 		hook := func() {
 			ev := r.Events[len(r.Events)-1]
+			if ev.K == 'N' && !(kind == "behavior" && ev.V == 900) {
+				// a delivery, live or replayed, is the notification that was published: same context
+				if pv, ok := ctxValueInt(ev.Ctx, c10Pub{}); !ok || pv != ev.V {
+					e.Violate("C10", "delivered-context", fmt.Sprintf("%s subject: subscriber %d received value %d with a context that is not the one it was published with (ops %v)", kind, id, ev.V, sc.Ops))
+				}
+			}
 			op := curOp[e.K.Cur().ID]
 			if op == nil {
 				stray++
@@ -465,7 +472,7 @@ func runC10(e *Env) {
 		e.Yield()
 		switch op.Op {
 		case "next":
-			subject.Next(op.A)
+			subject.NextWithContext(context.WithValue(context.Background(), c10Pub{}, op.A), op.A)
 		case "error":
 			subject.Error(ScriptError(op.A))
 		case "complete":
@@ -602,4 +609,15 @@ func c10Linearizable(e *Env, model porcupine.Model, ops []porcupine.Operation, r
 	default:
 		e.Probe("linearizable")
 	}
+}
+
+// c10Pub keys the published value in the context of a publication.
+type c10Pub struct{}
+
+func ctxValueInt(ctx context.Context, key any) (int, bool) {
+	if ctx == nil {
+		return 0, false
+	}
+	v, ok := ctx.Value(key).(int)
+	return v, ok
 }
